@@ -29,7 +29,7 @@ LEVEL_NOTE = 'Trusted: the reference matcher. Sampling only; no exhaustiveness c
 TECHNIQUE = 'Hypothesis generated texts/maps/rule lists, differential against a reference matcher; metamorphic integration through tex2txt'
 
 W = ['a', 'b', 'ab', 'so', 'dass', 'x.', '.', 'a.b', '(', '$', '*', 'a+', '1', '_', 'é',
-     '[a]', '\\', '&', '#', 'a1', 'A', 'ä', '^a', 'b|a', 'a?', 'so.', '1a', '_a', 'a_']
+     '[a]', '\\', '&', '#', 'a1', 'A', 'ä', '^a', 'b|a', 'a?', 'so.', '1a', '_a', 'a_', 'R&D', 'AT&T', '&c', 'a&']
 SEP = [' ', '  ', '\n', ' \n ', '\n\n', '\t', ' \n\n ', '', '\n \n', ' \t\n', '\xa0']
 text_s = st.lists(st.tuples(st.sampled_from(SEP), st.sampled_from(W)), max_size=12) \
     .map(lambda l: ''.join(s + w for s, w in l))
